@@ -9,10 +9,13 @@ import (
 	"bytes"
 	"fmt"
 	"go/ast"
+	"go/parser"
 	"go/token"
 	"go/types"
+	"os"
 	"os/exec"
 	"path/filepath"
+	"regexp"
 	"sort"
 	"strconv"
 	"strings"
@@ -183,6 +186,10 @@ type panicOb struct {
 	By     string // non-empty when discharged automatically
 	Detail string
 	needs  func(rel string) bool // decides a guard relation at this site
+	node   ast.Node
+	info   *types.Info
+	outer  ast.Node // outermost function around the construct
+	inl    string   // Expr with aliased single-assignment locals replaced by their definitions
 }
 
 // reviewedEntry discharges an obligation by a recorded reason.
@@ -206,6 +213,7 @@ type panicEngine struct {
 	reviewed []reviewedEntry
 	curNeeds func(pos token.Pos) func(string) bool
 	curInfo  *types.Info
+	curOuter ast.Node
 	graphs   map[*ast.BlockStmt]*FGraph
 	vinfos   map[*ast.BlockStmt]*varInfo
 	done     map[ast.Node]bool
@@ -427,7 +435,13 @@ func (pe *panicEngine) add(kind, where string, e ast.Node, pos token.Pos, by, de
 	} else {
 		s = nodeStr(pe.c.Fset, e)
 	}
-	pe.obs = append(pe.obs, panicOb{Kind: kind, Where: where, Expr: s, Pos: pos, By: by, Detail: detail, needs: pe.needsAt(pos, e)})
+	inl := ""
+	if ex, ok := e.(ast.Expr); ok && by == "" && pe.curInfo != nil && pe.curOuter != nil {
+		if e2 := inlineAliases(pe.curInfo, pe.curOuter, ex); e2 != ex {
+			inl = exprStr(e2)
+		}
+	}
+	pe.obs = append(pe.obs, panicOb{Kind: kind, Where: where, Expr: s, Pos: pos, By: by, Detail: detail, needs: pe.needsAt(pos, e), node: e, info: pe.curInfo, outer: pe.curOuter, inl: inl})
 }
 
 func (pe *panicEngine) enumerate(info *types.Info, vi *varInfo, fg *FGraph, where string, self ast.Node, body *ast.BlockStmt) {
@@ -463,6 +477,10 @@ func (pe *panicEngine) enumerate(info *types.Info, vi *varInfo, fg *FGraph, wher
 		}
 	}
 	pe.curInfo = info
+	pe.curOuter = vi.outer
+	if pe.curOuter == nil {
+		pe.curOuter = self
+	}
 	defer func() { pe.curNeeds = nil }()
 	divBy := func(y ast.Expr, pos token.Pos) string {
 		if by := pr.proveNonZero(y, factsFor(pos)); by != "" {
@@ -491,6 +509,31 @@ func (pe *panicEngine) enumerate(info *types.Info, vi *varInfo, fg *FGraph, wher
 				by = "compiler: prove pass eliminated the bounds check"
 			} else if why := pr.proveIndex(t, factsFor(t.Pos())); why != "" {
 				by = "guard: " + why
+			} else if sets, ok := fg.PathFactsAtPos(t.Pos(), 256); ok {
+				all := true
+				for _, fs := range sets {
+					if pr.proveIndex(t, fs) == "" {
+						all = false
+						break
+					}
+				}
+				if all {
+					by = fmt.Sprintf("guard (path-wise, %d entry paths): 0 <= %s < len(%s) on every path", len(sets), exprStr(t.Index), exprStr(t.X))
+				}
+			}
+			if dbg := os.Getenv("RARECHECK_FACTS"); dbg != "" && strings.HasSuffix(pe.c.Pos(t.Lbrack), dbg) {
+				fmt.Fprintf(os.Stderr, "FACTS at %s %s by=%q\n", pe.c.Pos(t.Lbrack), exprStr(t), by)
+				for _, f := range factsFor(t.Pos()) {
+					fmt.Fprintf(os.Stderr, "  joined: %s tag=%v %v\n", exprStr(f.Cond), f.Tag != nil, f.Truth)
+				}
+				sets, ok := fg.PathFactsAtPos(t.Pos(), 256)
+				fmt.Fprintf(os.Stderr, "  pathwise ok=%v n=%d\n", ok, len(sets))
+				for i, fs := range sets {
+					for _, f := range fs {
+						fmt.Fprintf(os.Stderr, "  path%d: %s %v\n", i, exprStr(f.Cond), f.Truth)
+					}
+					fmt.Fprintf(os.Stderr, "  path%d proves: %q\n", i, pr.proveIndex(t, fs))
+				}
 			}
 			pe.add("index", where, t, t.Lbrack, by, "")
 		case *ast.SliceExpr:
@@ -499,6 +542,17 @@ func (pe *panicEngine) enumerate(info *types.Info, vi *varInfo, fg *FGraph, wher
 				by = "compiler: prove pass eliminated the bounds check"
 			} else if why := pr.proveSlice(t, factsFor(t.Pos())); why != "" {
 				by = "guard: " + why
+			} else if sets, ok := fg.PathFactsAtPos(t.Pos(), 256); ok {
+				all := true
+				for _, fs := range sets {
+					if pr.proveSlice(t, fs) == "" {
+						all = false
+						break
+					}
+				}
+				if all {
+					by = fmt.Sprintf("guard (path-wise, %d entry paths): slice bounds of %s hold on every path", len(sets), exprStr(t.X))
+				}
 			}
 			pe.add("slice", where, t, t.Lbrack, by, "")
 		case *ast.BinaryExpr:
@@ -639,7 +693,7 @@ func (pe *panicEngine) emit(r *Report, rule string, filter func(o panicOb) bool)
 		}
 		done := false
 		for i, re := range pe.reviewed {
-			if re.Kind == o.Kind && re.Where == o.Where && re.Expr == o.Expr {
+			if re.Kind == o.Kind && re.Where == o.Where && (re.Expr == o.Expr || (o.inl != "" && re.Expr == o.inl)) {
 				max := re.Max
 				if max == 0 {
 					max = 1
@@ -661,6 +715,44 @@ func (pe *panicEngine) emit(r *Report, rule string, filter func(o panicOb) bool)
 				}
 			}
 		}
+		if !done {
+			// second chance: the same construct with local variables renamed. Admissible
+			// only when the old names are gone from the function (a rename, not a
+			// different operand) and the entry's guards hold under the new names.
+			for i, re := range pe.reviewed {
+				max := re.Max
+				if max == 0 {
+					max = 1
+				}
+				if re.Kind != o.Kind || re.Where != o.Where || used[i] >= max {
+					continue
+				}
+				m, ok := renameMatch(re.Expr, o)
+				if !ok {
+					continue
+				}
+				okNeeds := true
+				for _, nd := range re.Needs {
+					if o.needs == nil || !o.needs(renameIdents(nd, m)) {
+						okNeeds = false
+					}
+				}
+				if !okNeeds {
+					continue
+				}
+				used[i]++
+				var mm []string
+				for a, b := range m {
+					if a != b {
+						mm = append(mm, a+"->"+b)
+					}
+				}
+				sort.Strings(mm)
+				r.OK(ru, o.Where, o.Expr, pos, "reviewed (locals renamed "+strings.Join(mm, ",")+"): "+re.Reason)
+				done = true
+				break
+			}
+		}
 		if done {
 			continue
 		}
@@ -678,6 +770,17 @@ func (pe *panicEngine) emit(r *Report, rule string, filter func(o panicOb) bool)
 			}[o.Kind]
 		}
 		r.Bad(ru, o.Where, o.Expr, pos, d)
+	}
+	if os.Getenv("RARECHECK_STALE") != "" {
+		for i, re := range pe.reviewed {
+			max := re.Max
+			if max == 0 {
+				max = 1
+			}
+			if used[i] < max {
+				fmt.Fprintf(os.Stderr, "STALE %s %s %s %q used=%d max=%d\n", rule, re.Kind, re.Where, re.Expr, used[i], max)
+			}
+		}
 	}
 }
 
@@ -843,4 +946,126 @@ func (pe *panicEngine) calleeGuard(info *types.Info, self ast.Node, divisor ast.
 
 func rv(kind, where, expr string, max int, reason string, needs ...string) reviewedEntry {
 	return reviewedEntry{Kind: kind, Where: where, Expr: expr, Max: max, Reason: reason, Needs: needs}
+}
+
+// renameMatch compares the reviewed expression text with the obligation's
+// expression up to a consistent, injective renaming of local variables. The
+// renamed-away names must no longer be declared in the enclosing function.
+func renameMatch(entry string, o panicOb) (map[string]string, bool) {
+	act, ok := o.node.(ast.Expr)
+	if !ok || o.info == nil || o.outer == nil {
+		return nil, false
+	}
+	ent, err := parser.ParseExpr(entry)
+	if err != nil {
+		return nil, false
+	}
+	m, inv := map[string]string{}, map[string]string{}
+	var match func(a, b ast.Expr) bool
+	matchOpt := func(a, b ast.Expr) bool {
+		if (a == nil) != (b == nil) {
+			return false
+		}
+		return a == nil || match(a, b)
+	}
+	match = func(a, b ast.Expr) bool {
+		a, b = ast.Unparen(a), ast.Unparen(b)
+		switch x := a.(type) {
+		case *ast.Ident:
+			y, ok := b.(*ast.Ident)
+			if !ok {
+				return false
+			}
+			if x.Name != y.Name {
+				v, isVar := o.info.Uses[y].(*types.Var)
+				if !isVar || v.IsField() || v.Pkg() == nil || v.Parent() == v.Pkg().Scope() {
+					return false
+				}
+			}
+			if old, ok := m[x.Name]; ok && old != y.Name {
+				return false
+			}
+			if old, ok := inv[y.Name]; ok && old != x.Name {
+				return false
+			}
+			m[x.Name], inv[y.Name] = y.Name, x.Name
+			return true
+		case *ast.BasicLit:
+			y, ok := b.(*ast.BasicLit)
+			return ok && x.Kind == y.Kind && x.Value == y.Value
+		case *ast.BinaryExpr:
+			y, ok := b.(*ast.BinaryExpr)
+			return ok && x.Op == y.Op && match(x.X, y.X) && match(x.Y, y.Y)
+		case *ast.UnaryExpr:
+			y, ok := b.(*ast.UnaryExpr)
+			return ok && x.Op == y.Op && match(x.X, y.X)
+		case *ast.StarExpr:
+			y, ok := b.(*ast.StarExpr)
+			return ok && match(x.X, y.X)
+		case *ast.SelectorExpr:
+			y, ok := b.(*ast.SelectorExpr)
+			return ok && x.Sel.Name == y.Sel.Name && match(x.X, y.X)
+		case *ast.IndexExpr:
+			y, ok := b.(*ast.IndexExpr)
+			return ok && match(x.X, y.X) && match(x.Index, y.Index)
+		case *ast.SliceExpr:
+			y, ok := b.(*ast.SliceExpr)
+			return ok && x.Slice3 == y.Slice3 && match(x.X, y.X) && matchOpt(x.Low, y.Low) && matchOpt(x.High, y.High) && matchOpt(x.Max, y.Max)
+		case *ast.CallExpr:
+			y, ok := b.(*ast.CallExpr)
+			if !ok || len(x.Args) != len(y.Args) || !match(x.Fun, y.Fun) {
+				return false
+			}
+			for i := range x.Args {
+				if !match(x.Args[i], y.Args[i]) {
+					return false
+				}
+			}
+			return true
+		}
+		return exprStr(a) == exprStr(b)
+	}
+	if !match(ent, act) {
+		return nil, false
+	}
+	renamed := false
+	gone := map[string]bool{}
+	for a, b := range m {
+		if a != b {
+			renamed = true
+			gone[a] = true
+		}
+	}
+	if !renamed {
+		return nil, false
+	}
+	still := false
+	ast.Inspect(o.outer, func(n ast.Node) bool {
+		if id, ok := n.(*ast.Ident); ok && gone[id.Name] {
+			if _, isVar := o.info.Defs[id].(*types.Var); isVar {
+				still = true
+			}
+		}
+		return true
+	})
+	if still {
+		return nil, false
+	}
+	return m, true
+}
+
+var identRe = regexp.MustCompile(`\.?[A-Za-z_][A-Za-z0-9_]*`)
+
+// renameIdents applies the renaming to the identifiers of a guard text
+// (selectors after a dot are field names and stay).
+func renameIdents(s string, m map[string]string) string {
+	return identRe.ReplaceAllStringFunc(s, func(t string) string {
+		if strings.HasPrefix(t, ".") {
+			return t
+		}
+		if n, ok := m[t]; ok {
+			return n
+		}
+		return t
+	})
 }
